@@ -56,6 +56,7 @@ func New(m *core.Machine, prog, rtp *gofe.Program, mods []*llfe.Module, pkgPath 
 	}
 	if rtp != nil {
 		d.RT = gofe.NewExec(rtp, m)
+		d.RT.Cfg.SkipUserInits = true
 	}
 	d.L = llfe.NewExec(m, mods)
 	d.L.Bridge = d
